@@ -133,12 +133,42 @@ class FaultyContext(object):
         self.set_done = True
 
 
+def default_layout(zero=False):
+    """ModbusSlaveContext() with its default tables: four create() blocks, 65536 zero cells from address 0"""
+    return {"zero": zero, "mode": "default", "slots": {"c": 0, "d": 1, "h": 2, "i": 3},
+            "blocks": [("fill", 0, 65536, 0, 0, 1), ("fill", 0, 65536, 0, 0, 1),
+                       ("fill", 0, 65536, 0, 0, 65535), ("fill", 0, 65536, 0, 0, 65535)]}
+
+
+def samelist_layout(r, zero=None, start=None, size=None):
+    """the user pattern `init = [0]*n; ModbusSequentialDataBlock(a, init)` for every table of two contexts:
+    eight blocks built from THE SAME Python list object (the model: eight distinct blocks)"""
+    if zero is None:
+        zero = r.random() < 0.5
+    start = r.choice([0, 1]) if start is None else start
+    size = r.choice([16, 40, 100]) if size is None else size
+    vals = [0] * size if r.random() < 0.6 else [r.randrange(2) for _ in range(size)]
+    return {"zero": zero, "mode": "samelist", "slots": {"c": 0, "d": 1, "h": 2, "i": 3},
+            "blocks": [("seq", start, list(vals)) for _ in range(8)]}
+
+
 def build(L):
-    from pymodbus.datastore import ModbusSlaveContext
-    blocks = [mk_block(d) for d in L["blocks"]]
+    from pymodbus.datastore import ModbusSlaveContext, ModbusSequentialDataBlock
     s = L["slots"]
+    mode = L.get("mode")
+    if mode == "default":
+        ctx = ModbusSlaveContext(zero_mode=True) if L["zero"] else ModbusSlaveContext()
+        blocks = [ctx.store[k] for k in sorted(s, key=lambda k: s[k])]
+        return FaultyContext(ctx), blocks
+    if mode == "samelist":
+        init = list(L["blocks"][0][2])                       # ONE list object for every block
+        blocks = [ModbusSequentialDataBlock(L["blocks"][0][1], init) for _ in L["blocks"]]
+    else:
+        blocks = [mk_block(d) for d in L["blocks"]]
     ctx = ModbusSlaveContext(di=blocks[s["d"]], co=blocks[s["c"]], ir=blocks[s["i"]], hr=blocks[s["h"]],
                              zero_mode=L["zero"])
+    if mode == "samelist":                                   # a second context over the remaining blocks
+        L["_sibling"] = ModbusSlaveContext(di=blocks[5], co=blocks[4], ir=blocks[7], hr=blocks[6], zero_mode=L["zero"])
     return FaultyContext(ctx), blocks
 
 
@@ -425,10 +455,19 @@ class History(object):
             o = ("Responses-%d" % (len(self.h.sent) - n0), 0, [])
         else:
             o = observe(self.h.sent[-1])
+        # the bytes the server would put on the wire for this response
+        pdu = [-1]
+        if escaped is None and len(self.h.sent) == n0 + 1:
+            try:
+                rp = self.h.sent[-1]
+                pdu = list(bytes([rp.function_code]) + rp.encode())
+            except Exception:  # noqa: BLE001 — a response that cannot be encoded
+                pdu = [-1]
         self.last_obs = o
-        self.last_terms = (wire_term(w), attrs_term(a), obs_term(o))
-        self.items.append("HReq (%s) %s (%s) %s" % (wire_term(w), attrs_term(a), obs_term(o), boolean(self.fctx.raised)))
-        self.desc.append({"wire": list(w), "front_end": name, "decoded_by": via, "attrs": a, "response": list(o),
+        self.last_terms = (wire_term(w), attrs_term(a), obs_term(o), zlist(pdu))
+        self.items.append("HReq (%s) %s (%s) %s %s" % (wire_term(w), attrs_term(a), obs_term(o),
+                                                       boolean(self.fctx.raised), zlist(pdu)))
+        self.desc.append({"wire": list(w), "front_end": name, "decoded_by": via, "attrs": a, "response": list(o), "response_pdu": bytes(pdu).hex() if pdu != [-1] else None,
                           "faulted": self.fctx.raised, "set_done_before_fault": self.fctx.raised and self.fctx.set_done})
         self.near += touched(w, off(self.L))
         if o[0] == "E":
@@ -446,7 +485,8 @@ class History(object):
 
     def case(self, plan=(), kind="history", nontrivial=None, extra=None):
         term = "(%s, (%s : list bool), %s)" % (layout_term(self.L), lst(boolean(b) for b in plan), lst(self.items))
-        desc = {"layout": self.L, "plan": [bool(b) for b in plan], "items": self.desc}
+        desc = {"layout": {k: v for k, v in self.L.items() if not k.startswith("_")},
+                "plan": [bool(b) for b in plan], "items": self.desc}
         if extra:
             desc.update(extra)
         if nontrivial is None:
@@ -548,6 +588,8 @@ def shrink_history(pid, desc):
     wires = [it["wire"] for it in desc["items"] if "wire" in it]
     if len(wires) <= 1:
         return None
+    if any(d[0] == "fill" and d[2] > 4000 for d in L["blocks"]):
+        wires = wires[-6:] if len(wires) > 6 else wires      # 64K layouts: keep the shrinking cheap
 
     def failing(cands):
         r = coqrun.eval_cases(pid + "_shrink", IMPORTS, CHK_HIST, [c.term for c in cands], shard=50)
